@@ -65,6 +65,11 @@ claim('C04', 'devx',
       'Every symbol of a 16-string alphabet (& < > " \' CR LF CRLF TAB, blanks, 2/3/4-byte UTF-8, URL metacharacters, ]]>, entity look-alikes) in each of 14 callback fields, the user fields of attribute-query responses and 9 metadata fields, singly (quick) and in all pairs (thorough), x {rsa-sha1, rsa-sha256} x {POST, Redirect} x stored consumer URL {registered, with query, empty} x metadata signing {off, sha1, sha256}; plus records persisted by the SSO endpoint itself followed through the callback. The bytes as sent are verified against the certificate published in the metadata (cross-checked with the certificate endpoint) by goxmldsig and by an own exclusive-C14N verifier - a signature fails only if both reject - or by a literal implementation of the HTTP-Redirect signature procedure over the Location actually sent; every Success reply must carry a verifying signature.',
       'Known findings (one root cause in the third-party canonicaliser, keyed by position kind and metacharacter) are listed in known_findings.json; strings outside the alphabet are not explored.', '§5 C04')
 
+claim('C03', 'devx+bfs',
+      'exhaustive enumeration of (field, symbol) placements x user-record shapes x bindings x configurations on the real callback handler with a pinned clock, plus two-callback histories on one provider',
+      'Stored-request fields (request ID, consumer URL, RelayState, audience) and user-record fields over the 16-symbol alphabet, one field (quick) / two fields (thorough) at a time, x 13 user-record shapes x {POST, Redirect} x 7 issuer/endpoint/time-format/algorithm configurations; IssueInstant, NotBefore, AuthnInstant and both NotOnOrAfter values are compared with exact expected strings because time.Now is pinned through the overlay (one additional real-clock pass with a bracket); response and assertion IDs must be distinct NCNames unseen in the whole run; every ordered pair of user shapes is replayed as a history of two callbacks on one provider so that state carried between sessions (pooled objects) shows. The reply is decoded without the repository decoders and compared with a reference built from the records the storage double served.',
+      'Known finding: RelayState containing CR on the POST binding (HTML newline normalisation).', '§5 C03')
+
 NOT_YET = {i: 'check not built yet in this revision (planned: see DESIGN.md §5 %s); not claimed until its machinery exists' % i for i in ids}
 
 def main():
